@@ -95,6 +95,9 @@ C09Pure ==
                   IF r[3] = "alone vs after the others"
                     \* an accessor called alone on a fresh object = the same accessor after all the others were called
                     THEN Chk("C09.pure.result-depends-on-earlier-accessors", << e.at, r[1], r[2] >>, r[4] = r[5] /\ r[6] = r[7])
+                    ELSE IF r[3] = "written through"
+                    \* what the accessors hand out belongs to the caller: writing through it does not reach the object
+                    THEN Chk("C09.pure.handed-out-object-is-not-the-callers-own", << e.at, r[1] >>, r[4] = r[5])
                     ELSE Chk("C09.pure.call-changes-its-receiver", << e.at, r[1], r[2], r[3] >>, r[4] = r[5])
                          + Chk("C09.pure.same-call-different-result", << e.at, r[1], r[2], r[3] >>, r[6] = r[7])))
 
@@ -111,6 +114,15 @@ C09Orders ==
                         P[i].fam = P[1].fam)))
 
 TraceInit == KitInit
-TraceNext == C09Orders \/ C09Run \/ C09Hist \/ C09Stress \/ C09Race \/ C09Total \/ C09Pure
+\* the first use of any part of the library made by many goroutines at once (fresh process, goroutines released together
+\* before every accessor) against the same accessors run afterwards by one goroutine on fresh objects
+C09First ==
+  /\ IsEv("C09First")
+  /\ LET e == Trace[l]
+     IN Consume(SumSeq(e.rows, LAMBDA r :
+                  Chk("C09.result.independent-of-concurrent-first-use", << e.shard, e.day, r[1], r[4] >>, r[2] = r[3]))
+                + Chk("C09.lock.left-held", << "first-use", e.shard >>, e.lockfree = 1))
+
+TraceNext == C09First \/ C09Orders \/ C09Run \/ C09Hist \/ C09Stress \/ C09Race \/ C09Total \/ C09Pure
 TraceSpec == TraceInit /\ [][TraceNext]_tvars
 =============================================================================
